@@ -346,6 +346,7 @@ PROPS = {
                       "jsonrpc2.go.",
     },
     "C16": {
+        "kcheck": True,
         "rule": "forced schedules on the in-memory server rig: systematic part = one request of every kind (normal, one-way, "
                 "heartbeat, rate-limited, failing authentication, rejected by a plugin) with Shutdown begun at every point of "
                 "its path (read / dispatch / handler start / response write / un-count), goroutine-per-request and worker-pool "
@@ -438,6 +439,7 @@ PROPS = {
                       "construction), client input (reply decoding, empty payload), share metadata keys.",
     },
     "C12": {
+        "kcheck": True,
         "rule": "exhaustive weight vectors (quick: n<=3,w<=4 and n=4,w<=2; thorough: n<=4,w<=6) from a random window "
                 "offset, round-robin sets n=0..8 from every cursor offset, and random update/selection histories over a "
                 "weight-metadata grammar; distinct = distinct model-input line; non-trivial = at least 2 servers and a "
